@@ -1,5 +1,5 @@
 /- C01 driver: `<id> mods=<flags> s=<hex> buf=<hex>` → `<id> m=<off>:<len>:<key>;…` (spec Text.allMatches) -/
-import YaraModel.Spec.Text
+import YaraModel.Model.TextScan
 import Driver.Util
 namespace Driver.Text
 open YaraModel.Text
@@ -30,6 +30,40 @@ def showOcc (os : List (Nat × List (Nat × UInt8))) : String :=
   if os.isEmpty then "m=-" else
   "m=" ++ ";".intercalate (os.map fun (o, l) => s!"{o}:" ++ "|".intercalate (l.map fun (n, k) => s!"{n}:{k.toNat}"))
 
+/-- `cands=off/bt,off/bt,…` in arrival order -/
+def parseCands (t : String) : Option (List (Nat × Nat)) :=
+  if t == "-" then some [] else
+  (t.splitOn ",").mapM fun c =>
+    match c.splitOn "/" with
+    | [o, b] => do let o' ← o.toNat?; let b' ← b.toNat?; pure (o', b')
+    | _ => none
+
+/-- `atoms=hexbytes:bt,…` -/
+def parseAtoms (t : String) : Option (List Atom) :=
+  if t == "-" then some [] else
+  (t.splitOn ",").mapM fun c =>
+    match c.splitOn ":" with
+    | [h, b] => do let bs ← Driver.unhex h; let b' ← b.toNat?; pure ⟨bs, b'⟩
+    | _ => none
+
+def showModel (ms : List Match) : String :=
+  if ms.isEmpty then "model=-" else
+  "model=" ++ ";".intercalate (ms.map fun m => s!"{m.off}:{m.len}:{m.key.toNat}")
+
+/-- certificate R1: the atoms the real compiler indexed are `atomsOf w m s` for some valid window `w`
+    (as sets) — then `atoms_cover` applies to them -/
+def atomsWindow (m : Mods) (s : Bytes) (real : List Atom) : Option Nat :=
+  (List.range (s.length + 1)).find? fun w =>
+    decide (w + min 4 s.length ≤ s.length) &&
+    (atomsOf w m s).all (fun a => real.contains a) && real.all (fun a => (atomsOf w m s).contains a)
+
+/-- certificate for the automaton stage: the candidates are exactly the occurrences of the indexed atoms -/
+def candsExact (atoms : List Atom) (buf : Bytes) (cands : List (Nat × Nat)) : Bool :=
+  let expected := (List.range (buf.length + 1)).flatMap fun o =>
+    (atoms.filter fun a => a.bytes.length > 0 && window buf (o + a.backtrack) a.bytes.length == some a.bytes).map
+      fun a => (o, a.bytes.length + a.backtrack)
+  expected.all (fun e => cands.contains e) && cands.all (fun c => expected.contains c)
+
 def handle (line : String) : String :=
   match Driver.toks line with
   | [] => ""
@@ -38,7 +72,12 @@ def handle (line : String) : String :=
     | some m, some s, some buf =>
       let mixed := mixedFullword m s buf
       let mx := if mixed.isEmpty then "-" else ",".intercalate (mixed.map toString)
-      s!"{id} {showOcc (occurrences m s buf)} any{showOcc (occurrencesAnyKey m s buf)} mixed={mx}"
+      let base := s!"{id} {showOcc (occurrences m s buf)} any{showOcc (occurrencesAnyKey m s buf)} mixed={mx}"
+      match (kv rest "cands").bind parseCands, (kv rest "atoms").bind parseAtoms with
+      | some cands, some atoms =>
+        let aw := match atomsWindow m s atoms with | some w => toString w | none => "NONE"
+        s!"{base} {showModel (pipeline m s buf cands)} atomsw={aw} acexact={if candsExact atoms buf cands then 1 else 0}"
+      | _, _ => base
     | _, _, _ => s!"{id} BADCASE"
 
 end Driver.Text
